@@ -8,6 +8,13 @@ Notation length := List.length.
 Notation "x ++ y" := (List.app x y) : list_scope.
 Delimit Scope string_scope with string.
 
+(* ASCII string literal -> list of code points *)
+Fixpoint str_of_string (s : string) : list N :=
+  match s with
+  | EmptyString => []
+  | String a r => N.of_nat (Ascii.nat_of_ascii a) :: str_of_string r
+  end.
+
 Inductive sx : Type :=
 | SI (z : Z)
 | SY (s : string)
